@@ -11,17 +11,18 @@ Section MetaProofs.
 Variable HS : Type.
 Variable handle : HS -> msg -> HS * verdict.
 Variable rl : role.
+Variable pol : policy.
 Variable budget : nat -> nat.
 
-Notation feedx := (feedx HS handle rl).
-Notation feeds := (feeds HS handle rl).
+Notation feedx := (feedx HS handle rl pol).
+Notation feeds := (feeds HS handle rl pol).
 Notation papp := (papp HS).
-Notation ev_meta := (ev_meta HS handle rl budget).
-Notation drain_meta := (drain_meta HS handle rl budget).
-Notation run_segs_meta := (run_segs_meta HS handle rl budget).
+Notation ev_meta := (ev_meta HS handle rl pol budget).
+Notation drain_meta := (drain_meta HS handle rl pol budget).
+Notation run_segs_meta := (run_segs_meta HS handle rl pol budget).
 Notation mst := (mst HS).
-Notation A := (A HS handle rl).
-Notation good := (good HS handle rl).
+Notation A := (A HS handle rl pol).
+Notation good := (good HS handle rl pol).
 
 (* the parse that stops at a BITFIELD header: what it emitted plus decoding what it left is
    decoding everything; and what it leaves is settled unless it stopped at a BITFIELD *)
@@ -33,7 +34,7 @@ Proof.
   induction f as [|f IH]; intros h m l h1 m1 b1 es1 Hf H; [lia|].
   cbn [Model.feeds] in H. destruct m as [|k lft|].
   - (* RIdle *)
-    destruct (one_msg rl l) eqn:E; try discriminate.
+    destruct (one_msg pol rl l) eqn:E; try discriminate.
     + inversion H; subst. split.
       * intros y. cbn [app]. symmetry. apply papp_nil.
       * right. split; cbn [m_h m_mode m_buf]; [rewrite feedx_idle, E; reflexivity|exact E].
@@ -43,7 +44,7 @@ Proof.
     + inversion H; subst. split.
       * intros y. rewrite feedx_idle, one_msg_mono, E by congruence. reflexivity.
       * right. split; reflexivity.
-    + destruct (one_msg_got_len _ _ _ _ E) as [[L1 L2] _].
+    + destruct (one_msg_got_len _ _ _ _ _ E) as [[L1 L2] _].
       assert (LS : length (skipn n l) + 4 <= length l) by (rewrite skipn_length; lia).
       unfold mu in Hf.
       assert (HD : forall y, feedx h RIdle (l ++ y) =
@@ -78,7 +79,7 @@ Proof.
   - (* RPay *)
     destruct (N.of_nat (length l) <? lft)%N eqn:E.
     + injection H as E1 E2 E3 E4; subst h1 m1 b1 es1. apply N.ltb_lt in E. split.
-      * intros y. rewrite (feedx_app' HS handle rl h (RPay k lft) l y), feedx_pay.
+      * intros y. rewrite (feedx_app' HS handle rl pol h (RPay k lft) l y), feedx_pay.
         assert (X : (N.of_nat (length l) <? lft)%N = true) by (apply N.ltb_lt; exact E).
         rewrite X. reflexivity.
       * right. split; cbn [m_h m_mode m_buf]; [|reflexivity].
@@ -157,7 +158,7 @@ Proof.
     pose proof (firstn_skipn want avail) as FS.
     remember (firstn want avail) as got.
     destruct (bufcap <? length (m_buf s) + length got); [discriminate|].
-    destruct (Model.feeds HS handle rl (S (length (m_buf s) + length got)) (m_h s) RIdle (m_buf s ++ got))
+    destruct (Model.feeds HS handle rl pol (S (length (m_buf s) + length got)) (m_h s) RIdle (m_buf s ++ got))
       as [h1 m1 b1 es1| |] eqn:F1; try discriminate.
     assert (MU : mu RIdle (m_buf s ++ got) < S (length (m_buf s) + length got)) by (unfold mu; rewrite app_length; lia).
     destruct (feeds_refines _ _ _ _ _ _ _ _ MU F1) as [R1 G1].
@@ -192,13 +193,13 @@ Proof.
         pose proof (firstn_skipn want2 (skipn want avail)) as FS2.
         remember (firstn want2 (skipn want avail)) as got2.
         remember (skipn want2 (skipn want avail)) as avail2.
-        rewrite (feedx_fuel HS handle rl) in H by (unfold mu; lia).
-        destruct (ProofsB.feedx HS handle rl h1 (RPay KExt lft1) got2) as [h2 m2 b2 es2| |] eqn:F2; try discriminate.
-        pose proof (good_of_feed HS handle rl _ _ _ _ _ _ _ (S (S (m_cnt s))) F2) as G2.
+        rewrite (feedx_fuel HS handle rl pol) in H by (unfold mu; lia).
+        destruct (ProofsB.feedx HS handle rl pol h1 (RPay KExt lft1) got2) as [h2 m2 b2 es2| |] eqn:F2; try discriminate.
+        pose proof (good_of_feed HS handle rl pol _ _ _ _ _ _ _ (S (S (m_cnt s))) F2) as G2.
         assert (RW2 : refinesW (mk_mst h1 (RPay KExt lft1) [] (S (m_cnt s))) (skipn want avail)
                                (mk_mst h2 m2 b2 (S (S (m_cnt s)))) avail2 es2).
         { exists got2. split; [symmetry; exact FS2|]. intros y. unfold ProofsD.A. cbn [m_h m_mode m_buf].
-          apply (A_step HS handle rl h1 (RPay KExt lft1) [] got2). exact F2. }
+          apply (A_step HS handle rl pol h1 (RPay KExt lft1) [] got2). exact F2. }
         pose proof (refinesW_trans _ _ _ _ _ _ _ _ (RW1 (S (m_cnt s))) RW2) as RW12.
         destruct ((length (m_buf s) + length got =? bufsz) || negb (is_idle m2)).
         -- apply mapp_ret in H. destruct H as (e2 & H & ->).
@@ -212,15 +213,15 @@ Proof.
     pose proof (firstn_skipn c (m_buf s)) as FSB.
     assert (LC : (N.of_nat (length (firstn c (m_buf s))) <= lft)%N) by (rewrite firstn_length; unfold c; lia).
     assert (LC2 : length (firstn c (m_buf s)) = c) by (rewrite firstn_length; unfold c; lia).
-    rewrite (feedx_fuel HS handle rl) in H by (unfold mu; lia).
-    destruct (ProofsB.feedx HS handle rl (m_h s) (RPay k lft) (firstn c (m_buf s))) as [h1 m1 b1 es1| |] eqn:F1; try discriminate.
+    rewrite (feedx_fuel HS handle rl pol) in H by (unfold mu; lia).
+    destruct (ProofsB.feedx HS handle rl pol (m_h s) (RPay k lft) (firstn c (m_buf s))) as [h1 m1 b1 es1| |] eqn:F1; try discriminate.
     destruct (pay_slice _ _ _ _ _ _ _ _ LC F1) as [B1 PL]. subst b1.
-    pose proof (good_of_feed HS handle rl _ _ _ _ _ _ _ (m_cnt s) F1) as G1.
+    pose proof (good_of_feed HS handle rl pol _ _ _ _ _ _ _ (m_cnt s) F1) as G1.
     assert (RW1 : forall cc, refinesW s avail (mk_mst h1 m1 (skipn c (m_buf s)) cc) avail es1).
     { intros cc. exists []. split; [reflexivity|]. intros y. cbn [app]. unfold ProofsD.A. cbn [m_h m_mode m_buf].
       rewrite M.
       replace (m_buf s ++ y) with (firstn c (m_buf s) ++ skipn c (m_buf s) ++ y) by (rewrite app_assoc, FSB; reflexivity).
-      pose proof (A_step HS handle rl (m_h s) (RPay k lft) [] (firstn c (m_buf s)) _ _ _ _ F1 (skipn c (m_buf s) ++ y)) as X.
+      pose proof (A_step HS handle rl pol (m_h s) (RPay k lft) [] (firstn c (m_buf s)) _ _ _ _ F1 (skipn c (m_buf s) ++ y)) as X.
       cbn [app] in X. exact X. }
     destruct m1 as [|k1 lft1|].
     + apply mapp_ret in H. destruct H as (e2 & H & ->).
@@ -237,12 +238,12 @@ Proof.
       destruct (firstn want avail) as [|g0 gs] eqn:GOT.
       * inversion H; subst. split; [apply RW1|exact G1].
       * set (got := g0 :: gs) in *.
-        rewrite (feedx_fuel HS handle rl) in H by (unfold mu; lia).
-        destruct (ProofsB.feedx HS handle rl h1 (RPay k1 lft1) got) as [h2 m2 b2 es2| |] eqn:F2; try discriminate.
-        pose proof (good_of_feed HS handle rl _ _ _ _ _ _ _ (S (m_cnt s)) F2) as G2.
+        rewrite (feedx_fuel HS handle rl pol) in H by (unfold mu; lia).
+        destruct (ProofsB.feedx HS handle rl pol h1 (RPay k1 lft1) got) as [h2 m2 b2 es2| |] eqn:F2; try discriminate.
+        pose proof (good_of_feed HS handle rl pol _ _ _ _ _ _ _ (S (m_cnt s)) F2) as G2.
         assert (RW2 : refinesW (mk_mst h1 (RPay k1 lft1) [] (m_cnt s)) avail (mk_mst h2 m2 b2 (S (m_cnt s))) (skipn want avail) es2).
         { exists got. split; [symmetry; exact FS|]. intros y. unfold ProofsD.A. cbn [m_h m_mode m_buf].
-          apply (A_step HS handle rl h1 (RPay k1 lft1) [] got). exact F2. }
+          apply (A_step HS handle rl pol h1 (RPay k1 lft1) [] got). exact F2. }
         pose proof (refinesW_trans _ _ _ _ _ _ _ _ (RW1 (m_cnt s)) RW2) as RW12.
         assert (LG : (N.of_nat (length got) <= lft1)%N).
         { pose proof (firstn_le_length want avail) as FL. rewrite GOT in FL. fold got in FL. unfold want in FL. lia. }
@@ -307,7 +308,7 @@ Proof.
     destruct (IH _ _ _ _ G1 H) as [G2 R2].
     split; [exact G2|]. cbn [concat]. rewrite Q, <- app_assoc, R.
     destruct CL as [CL|CL].
-    + rewrite (A_closed HS handle rl s1 (rest ++ concat more) (concat more) CL G1), R2. apply papp_papp.
+    + rewrite (A_closed HS handle rl pol s1 (rest ++ concat more) (concat more) CL G1), R2. apply papp_papp.
     + subst rest. cbn [app]. rewrite R2. apply papp_papp.
 Qed.
 
@@ -316,14 +317,14 @@ Qed.
    concatenated segments, and is in the state that decode denotes (after commit 37af099 this
    includes a BITFIELD and everything buffered behind it). *)
 Theorem meta_machine_refines_decode : forall (h : HS) (pre : list N) (segs : list (list N)) s' avail' es,
-  run_meta HS handle rl budget h pre segs = MRet s' avail' es ->
-  decode HS handle rl h (pre ++ concat segs) = PRes (m_h s') (m_mode s') (m_buf s') es.
+  run_meta HS handle rl pol budget h pre segs = MRet s' avail' es ->
+  decode HS handle rl pol h (pre ++ concat segs) = PRes (m_h s') (m_mode s') (m_buf s') es.
 Proof.
   intros h pre segs s' avail' es H. unfold run_meta in H.
   assert (FIN : forall s0 es0 e2, good s0 ->
             (forall y, feedx h RIdle (pre ++ y) = papp es0 (A s0 y)) ->
             run_segs_meta s0 segs = MRet s' avail' e2 ->
-            decode HS handle rl h (pre ++ concat segs) = PRes (m_h s') (m_mode s') (m_buf s') (es0 ++ e2)).
+            decode HS handle rl pol h (pre ++ concat segs) = PRes (m_h s') (m_mode s') (m_buf s') (es0 ++ e2)).
   { intros s0 es0 e2 G0 R0 RS.
     destruct (run_segs_meta_refines _ _ _ _ _ G0 RS) as [[G1 _] RR].
     rewrite decode_feedx, R0, RR, papp_papp. unfold ProofsD.A. rewrite app_nil_r, G1.
